@@ -262,3 +262,52 @@ def guards_of(func, node):
                     _split(p.test, True, out)
         cur = p
     return out
+
+
+def guards_at(func, node):
+    """guards_of the statement containing `node`, plus the conditions imposed inside the
+    statement by enclosing conditional expressions (`x if t else y`), short-circuit `and`/`or`
+    and comprehension filters"""
+    out = []
+    cur = node
+    while not isinstance(cur, ast.stmt):
+        p = getattr(cur, '_parent', None)
+        if p is None:
+            return out
+        if isinstance(p, ast.IfExp):
+            if cur is p.body:
+                _split(p.test, True, out)
+            elif cur is p.orelse:
+                _split(p.test, False, out)
+        elif isinstance(p, ast.BoolOp):
+            idx = [i for i, v in enumerate(p.values) if v is cur]
+            if idx:
+                for v in p.values[:idx[0]]:
+                    _split(v, isinstance(p.op, ast.And), out)
+        elif isinstance(p, (ast.ListComp, ast.SetComp, ast.GeneratorExp, ast.DictComp)):
+            if cur is getattr(p, 'elt', None) or cur is getattr(p, 'key', None) or \
+                    cur is getattr(p, 'value', None):
+                for g in p.generators:
+                    for c in g.ifs:
+                        _split(c, True, out)
+        cur = p
+    return out + guards_of(func, cur)
+
+
+def iteration_source(func, name):
+    """the collection a loop / comprehension variable `name` runs over (enumerate / zip position
+    resolved), or None"""
+    for n in ast.walk(func):
+        if isinstance(n, (ast.For, ast.comprehension)):
+            tg, it = n.target, n.iter
+            if isinstance(tg, ast.Name) and tg.id == name:
+                return it
+            if isinstance(tg, ast.Tuple) and isinstance(it, ast.Call) and \
+                    isinstance(it.func, ast.Name):
+                for k, e in enumerate(tg.elts):
+                    if isinstance(e, ast.Name) and e.id == name:
+                        if it.func.id == 'enumerate' and k == 1 and it.args:
+                            return it.args[0]
+                        if it.func.id == 'zip' and k < len(it.args):
+                            return it.args[k]
+    return None
